@@ -16,7 +16,7 @@ Programs use integers, booleans, null, strings (only string + string
 concatenation), + - * / on numbers, comparisons, strict and loose equality,
 bitwise operators, unary operators, typeof, && || ??, ?:, simple / compound /
 logical assignment, let / const, blocks with shadowing, if / else, bounded
-while loops, and deliberately a few reads of undeclared names and assignments
+while loops with break / continue (also from inside nested blocks), and deliberately a few reads of undeclared names and assignments
 to constants (the two error outcomes of the model)."""
 import json
 import os
@@ -183,6 +183,8 @@ class Gen:
 
     # ---- statements: return (ts lines, coq) ----
     def stmt(self, d, faults):
+        if self.loops > 0 and self.rng.below(6) == 0:
+            return self.jump_stmt()
         r = self.rng.below(20)
         if r < 6 or d <= 0:
             ty = self.pick(["n", "n", "n", "b", "s"])
@@ -242,6 +244,21 @@ class Gen:
         e = self.anyv(3)
         return ["%s;" % e[0]], "SExpr _ _ (%s)" % e[1]
 
+    def jump_stmt(self):
+            # leave / restart the innermost loop, usually under a condition, sometimes from inside a block
+            kw, coq = (("break", "SBreak _ _") if self.rng.below(2) else ("continue", "SContinue _ _"))
+            shape = self.rng.below(4)
+            if shape == 0:
+                return ["%s;" % kw], coq
+            c = self.boolean(2)
+            if shape == 1:
+                return ["if (%s) %s;" % (c[0], kw)], "SIf _ _ (%s) (%s) None" % (c[1], coq)
+            if shape == 2:
+                return ["if (%s) { %s; }" % (c[0], kw)], "SIf _ _ (%s) (SBlock _ _ [%s]) None" % (c[1], coq)
+            e = self.anyv(2)
+            return ["if (%s) { { %s; %s; } }" % (c[0], e[0], kw)], \
+                "SIf _ _ (%s) (SBlock _ _ [SBlock _ _ [SExpr _ _ (%s); %s]]) None" % (c[1], e[1], coq)
+
     def branch(self, d, faults):
         """the body of an if: a block or a single expression statement"""
         if self.rng.below(3) == 0:
@@ -281,6 +298,12 @@ CORPUS = [
      '(ETypeofVar _ _ "zz9")'),
     ("let a = 1;\n(a = zz9);\n", 'core_case 4000 [SDecl _ _ true "a" (ELit _ _ (LInt 1))] (EAssign _ _ "a" (EVar _ _ "zz9"))'),
     ("1000;\n", "core_case 4000 [] (ELit _ _ (LInt 1000))"),
+    ("let x = 1;\n{\n  let i = 0;\n  while (i < 9) {\n    i = i + 1;\n    if ((i === 3)) { let x = 50; continue; }\n    x = x + i;\n    { if ((x > 20)) break; }\n  }\n}\nx;\n",
+     'core_case 4000 [SDecl _ _ true "x" (ELit _ _ (LInt 1)); SBlock _ _ [SDecl _ _ true "i" (ELit _ _ (LInt 0)); '
+     'SWhile _ _ (EBin _ _ Lt (EVar _ _ "i") (ELit _ _ (LInt 9))) (SBlock _ _ [SExpr _ _ (EAssign _ _ "i" (EBin _ _ Add (EVar _ _ "i") (ELit _ _ (LInt 1)))); '
+     'SIf _ _ (EBin _ _ StrictEq (EVar _ _ "i") (ELit _ _ (LInt 3))) (SBlock _ _ [SDecl _ _ true "x" (ELit _ _ (LInt 50)); SContinue _ _]) None; '
+     'SExpr _ _ (EAssign _ _ "x" (EBin _ _ Add (EVar _ _ "x") (EVar _ _ "i"))); '
+     'SBlock _ _ [SIf _ _ (EBin _ _ Gt (EVar _ _ "x") (ELit _ _ (LInt 20))) (SBreak _ _) None]])]] (EVar _ _ "x")'),
 ]
 
 
